@@ -254,16 +254,8 @@ func runOne(fail failFn, in *input) *outcome {
 	out.readDirs = w.readDirs
 	out.lstats = w.lstats
 	// Every stored blob is stored under its own digest.
-	keys := make([]string, 0, len(w.cas.blobs))
-	for k := range w.cas.blobs {
-		keys = append(keys, k)
-	}
-	sort.Strings(keys)
-	for _, k := range keys {
-		if h, n := shaKey(w.cas.blobs[k]); casKey(h, n) != k {
-			ffail("cas/blob-under-wrong-digest", "blob stored under %s hashes to %s", k, casKey(h, n))
-			return out
-		}
+	if !casConsistent(ffail, w) {
+		return out
 	}
 	if out.uploadErr != nil && !w.hit && !legacyOnly {
 		// Legitimate reasons for an error without an injected fault: a
